@@ -163,6 +163,8 @@ class Executor:
         self.fuel = fuel
         self.solver = z3.Solver()
         self.solver.set("timeout", solver_timeout_ms)
+        self.solver_timeout_ms = solver_timeout_ms
+        self.dump_unknown = None
         self.queries = 0
         self.solver_s = 0.0
         self.blocks_executed = 0
@@ -191,6 +193,18 @@ class Executor:
         if r == z3.sat:
             m = self.solver.model()
         self.solver.pop()
+        if r == z3.unknown:
+            # second opinion: a fresh QF_BV solver (bit-blasting + SAT) often answers what the incremental default gives up on
+            s2 = z3.SolverFor("QF_BV")
+            s2.set("timeout", self.solver_timeout_ms * 2)
+            for c in conds:
+                s2.add(c)
+            r = s2.check()
+            if r == z3.sat:
+                m = s2.model()
+            if r == z3.unknown and self.dump_unknown:
+                with open(self.dump_unknown, "w") as f:
+                    f.write(s2.to_smt2())
         self.solver_s += time.time() - t0
         if r == z3.unknown:
             raise Unsupported("solver returned unknown (timeout) on a path query")
@@ -764,7 +778,13 @@ class Executor:
             while True:
                 snap = None
                 try:
-                    res = self.step(st, base_depth)
+                    try:
+                        res = self.step(st, base_depth)
+                    except Unsupported as e:
+                        if "   [at " not in str(e) and st.frames:
+                            fr_ = st.frames[-1]
+                            raise Unsupported(f"{e}   [at {_short_fn(fr_.name)}:{fr_.block}, path {''.join(st.trace)[-40:]}]")
+                        raise
                 except Fork as fk:
                     c = fk.cond
                     s2 = st.clone()
@@ -1074,6 +1094,12 @@ class Executor:
             if r:
                 fn, b = r
                 return fn, b
+            # blanket `impl<T, U: From<T>> Into<U> for T`
+            im = re.match(r"^(?:std::convert::)?Into<(.*)>$", trait or "")
+            if im and method == "into":
+                r = self.resolve_method(im.group(1), f"From<{self_ty}>", "from")
+                if r:
+                    return r
             return None
         # items nested in an impl method: <Self as Trait>::method::inner
         m = re.match(r"^<(.*)>::([A-Za-z_0-9]+)((?:::[A-Za-z_0-9]+)+)$", func_s)
@@ -1097,7 +1123,17 @@ class Executor:
                 for trait in (None,):
                     r = self.resolve_method(self_ty, None, method)
                     if r:
-                        return r
+                        fn_, b_ = r
+                        b_ = dict(b_)
+                        gm = re.search(r"::<(.*)>$", segs[-1]) if segs[-1].endswith(">") else None
+                        if gm:
+                            gargs = [g for g in M.split_top(gm.group(1)) if g and not g.startswith("'")]
+                            plists = [p for p in self.src.fn_generics.get(method, []) if len(p) == len(gargs)]
+                            if plists and all(p == plists[0] for p in plists):
+                                b_.update(dict(zip(plists[0], gargs)))
+                            elif gargs:
+                                raise Unsupported(f"cannot bind generic arguments of {func_s}")
+                        return fn_, b_
                 # trait impl methods called through the type path
                 cands = []
                 for e in self.impl_index().get(method, []):
